@@ -331,19 +331,20 @@ var MSP = addr20("msprovider")
 func init() { addrNames["MSP"] = MSP }
 
 var tMsvc = Template{Name: "callms", Consumer: "C1", Service: "ms", Providers: []string{"MSP"}, Cap: 5, Timeout: 1}
+var tMsvcLow = Template{Name: "callmslow", Consumer: "C2", Service: "ms", Providers: []string{"MSP"}, Cap: 1, Timeout: 1}
 
 func scMsvc(ps ParamSet, depth, blocks, msgs int) *Scenario {
 	install := Action{Name: "install(ms)", Kind: "install", Tmpl: -1, Signer: MSP,
 		Mod: func(ctx sdk.Context, k servicekeeperT) error {
 			k.SetServiceDefinition(ctx, stDef("ms"))
-			return k.SetServiceBindingForGenesis(ctx, stBinding("ms", MSP, `{"price":"1stake"}`))
+			return k.SetServiceBindingForGenesis(ctx, stBinding("ms", MSP, `{"price":"2stake"}`))
 		}}
 	return &Scenario{
 		Name: "S-MSVC", Params: ps,
 		Rig:   RigConfig{ModuleServices: []ModuleSvcSpec{{Module: "msmod", Service: "ms", Provider: MSP, Result: resultOK, Output: outputOK}}},
-		Funds: []Funding{{O1, 100}, {O2, 100}, {C1, 60}}, Extra: append(append([]sdk.AccAddress{}, allAccounts...), MSP),
+		Funds: []Funding{{O1, 100}, {O2, 100}, {C1, 60}, {C2, 10}}, Extra: append(append([]sdk.AccAddress{}, allAccounts...), MSP),
 		Setup:     []Action{install, actDefine("a", "AU")},
-		Templates: []Template{tMsvc, tOne},
+		Templates: []Template{tMsvc, tMsvcLow, tOne},
 		Alpha: lifeAlpha(AlphaOpts{RespKinds: []string{"ok"}, BindOps: []Action{
 			actBind("ms", "P1", "O1", 10, "p1", 1), actBind("a", "P1", "O1", 10, "p1", 1), actBind("ms", "MSP", "O1", 10, "p1", 1)}}),
 		Depth: depth, MaxBlocks: blocks, MaxMsgs: msgs,
